@@ -825,7 +825,8 @@ UNKNOWN_VERBS = [b'M-POST', b'M-POST', b'FOO', b'PROPFIND', b'post', b'Post',
 CL_VARIANTS = ['absent', 'zero', 'smaller', 'smaller', 'larger', 'larger',
                'minus-one', 'negative', 'non-numeric', 'non-numeric', 'empty',
                'thirty-digits', 'float', 'hex', 'plus', 'padded', 'leading-0',
-               'underscore', 'dup-conflict', 'dup-same', 'trailing-junk']
+               'underscore', 'dup-conflict', 'dup-same', 'trailing-junk',
+               'non-ascii-digits', 'non-ascii-digits', 'thousands-of-digits']
 
 
 def gen_request(rng, iid, hostile):
@@ -874,6 +875,14 @@ def gen_request(rng, iid, hostile):
             req.cl = rng.choice([b'abc', b'12abc', b'NaN', b'ten', b'1e3',
                                  b'--5', b'1,2', b'\xb2', b'1 2', b'None',
                                  b'0x', b'+', b'-'])
+        elif v == 'non-ascii-digits':
+            # characters for which str.isdigit() is true but int() fails or
+            # that are digits of another script (header bytes are latin-1)
+            req.cl = rng.choice([b'\xb2', b'\xb9\xb2', b'1\xb3', b'\xb2\xb3\xb9',
+                                 b'\xbc', b'1\xb2%d' % n])
+        elif v == 'thousands-of-digits':
+            req.cl = rng.choice([b'1', b'9', b'0']) * rng.choice(
+                [4300, 4301, 5000, 20000])
         elif v == 'empty':
             req.cl = b''
         elif v == 'thirty-digits':
